@@ -29,7 +29,7 @@ Is(e) == l <= Len(TraceLog) /\ TraceLog[l].ev = e
 Adv == l' = l + 1 /\ (IF TraceLog[l].ev = "reset" THEN TRUE ELSE UNCHANGED mok)
 LockOK == RequireLocked => Ev.locked = TRUE
 
-CntZero == [idle |-> 0, denied |-> 0, deniedR |-> 0, deniedU |-> 0, matched |-> 0, withRelay |-> 0, withoutRelay |-> 0]
+CntZero == [idle |-> 0, denied |-> 0, deniedR |-> 0, deniedU |-> 0, matched |-> 0, withRelay |-> 0, withoutRelay |-> 0, rejected |-> 0]
 Keep == UNCHANGED <<cnt, pcnt, ips, jadds, nats>>
 Empty == [x \in {} |-> 0]
 Bump(f, k) == IF k \in DOMAIN f THEN [f EXCEPT ![k] = @ + 1] ELSE f @@ (k :> 1)
@@ -38,6 +38,7 @@ KnownTypes == {"standalone", "webext", "badge", "iptproxy"}
 NatClass(n) == IF n \in {"restricted", "unrestricted"} THEN n ELSE "unknown"
 ProxyPollKey(nat, status) == "prom:rounded_proxy_poll_total{nat=" \o nat \o ",status=" \o status \o "}"
 ClientPollKey(nat, status) == "prom:rounded_client_poll_total{nat=" \o nat \o ",status=" \o status \o "}"
+RejectedKey(nat, type) == "prom:rounded_proxy_poll_rejected_relay_url_extension_total{nat=" \o nat \o ",type=" \o type \o "}"
 RelayKey(with, nat, type) == "prom:rounded_proxy_poll_" \o (IF with THEN "with" ELSE "without") \o "_relay_url_extension_total{nat=" \o nat \o ",type=" \o type \o "}"
 
 TInit == Init /\ l = 1 /\ cnt = CntZero /\ pcnt = Empty /\ ips = Empty /\ jadds = {} /\ nats = {} /\ mok = TRUE /\ TLCSet(1, 1)
@@ -63,6 +64,7 @@ TReset ==
 
 TAdd ==
   /\ Is("add") /\ LockOK
+  /\ Ev.rejectable = FALSE                         \* a poll the broker must refuse never registers
   /\ Ev.nat = Eff(Ev.natwire)                       \* NAT type as decoded = as reported (absent means unknown)
   /\ ProxyRegister(Ev.p, Ev.nat, Ev.loadwire, Ev.p)      \* the heap order is judged on the self-reported count
   /\ cnt' = (IF Ev.relayext THEN [cnt EXCEPT !.withRelay = @ + 1] ELSE [cnt EXCEPT !.withoutRelay = @ + 1])
@@ -122,8 +124,21 @@ TWLocked ==
 (* repaired code: the timed-out waiter of a popped snowflake waits for the offer *)
 TWClaimed == Is("w.claimed") /\ D1Fixed /\ wpc[Ev.p] \in {"waiting", "forward", "done"} /\ Popped(Ev.p) /\ UNCHANGED vars /\ Keep /\ Adv
 
+(* a refused poll (relay pattern): answered at once with a status that is neither a match nor "no
+   match"; it is counted as a poll with the extension and as a rejected one, and nothing else moves *)
+TPRejected ==
+  /\ Is("p.resp") /\ ppc[Ev.p] = "idle"
+  /\ Ev.refused = TRUE /\ Ev.rejectable = TRUE
+  /\ ProxyRejected(Ev.p)
+  /\ cnt' = [cnt EXCEPT !.withRelay = @ + 1, !.rejected = @ + 1]
+  /\ LET t == IF Ev.ptype \in KnownTypes THEN Ev.ptype ELSE "unknown"     \* as decoded (messages.KnownProxyTypes)
+     IN pcnt' = Bump(Bump(pcnt, RelayKey(TRUE, Eff(Ev.natwire), t)), RejectedKey(Eff(Ev.natwire), t))
+  /\ UNCHANGED <<ips, jadds, nats>>
+  /\ Adv
+
 TPResp ==
-  /\ Is("p.resp")
+  /\ Is("p.resp") /\ ppc[Ev.p] # "idle"
+  /\ Ev.refused = FALSE
   /\ ProxyRespond(Ev.p)
   /\ presp'[Ev.p].kind = Ev.kind
   /\ (Ev.kind = "offer" => /\ presp'[Ev.p].client = Ev.client
@@ -237,7 +252,7 @@ MetricsRight(m) ==
   /\ m["log:client-snowflake-match-count"] = Ceil8(cnt.matched)
   /\ m["log:snowflake-proxy-poll-with-relay-url-count"] = Ceil8(cnt.withRelay)
   /\ m["log:snowflake-proxy-poll-without-relay-url-count"] = Ceil8(cnt.withoutRelay)
-  /\ m["log:snowflake-proxy-rejected-for-relay-url-count"] = 0
+  /\ m["log:snowflake-proxy-rejected-for-relay-url-count"] = Ceil8(cnt.rejected)
   /\ \A k \in DOMAIN pcnt : k \in DOMAIN m /\ m[k] = Ceil8(pcnt[k])
   /\ \A t \in KnownTypes : m["log:snowflake-ips-" \o t] = CardOf(t)
   /\ m["log:snowflake-ips-total"] = SumCards(DOMAIN ips)
@@ -260,7 +275,7 @@ TMetrics ==
 
 TNext ==
   \/ TReset \/ TAdd \/ TMatch \/ TOfferGate \/ TSent \/ TWOffer \/ TForwarded \/ TGot
-  \/ TWTimeout \/ TWLocked \/ TWClaimed \/ TPResp \/ TCAnswer \/ TCTimeout \/ TCPre \/ TCCleanup \/ TCResp
+  \/ TWTimeout \/ TWLocked \/ TWClaimed \/ TPResp \/ TPRejected \/ TCAnswer \/ TCTimeout \/ TCPre \/ TCCleanup \/ TCResp
   \/ TALookup \/ TASendGate \/ TSilentSend \/ TSilentGet \/ TASent \/ TADropped \/ TAResp \/ TTick \/ TEnd \/ TMetrics \/ TMLocked \/ TDebug \/ TJournal
 
 TSpec == TInit /\ [][TNext]_tvars
